@@ -21,6 +21,8 @@ for year in (2021, 2022, 2023):
         inp = rm.cat.input(name)
         if type(inp) is not I.BooleanInput:
             continue
+        if len(sys.argv) > 2 and not name.startswith(sys.argv[2]):
+            continue
         g = tm.var('i:' + name, 'B')
         consulted = []
         for n in rm.lines:
